@@ -10,7 +10,7 @@ git -C /repo worktree add --detach "$W" HEAD >/dev/null 2>&1 || { echo "worktree
 fin() { git -C /repo worktree remove --force "$W" >/dev/null 2>&1; rm -rf "$W"; }
 trap fin EXIT
 # demos written by sub-agents may pin the path of their own worktree; make that an environment variable
-sed -E 's#"/tmp/seed[0-9]?/C[0-9]+/?"#__import__("os").environ.get("IOPT_TREE", "/")#g' "$SRC/demo_$V.py" > "$W/.demo.py"
+sed -E "s#[\"']/tmp/seed[0-9]?/C[0-9]+/?[\"']#__import__('os').environ.get('IOPT_TREE', '/')#g" "$SRC/demo_$V.py" > "$W/.demo.py"
 export IOPT_TREE="$W"
 run_demo() { ( cd "$W" && PYTHONPATH="$W" PYTHONDONTWRITEBYTECODE=1 MPLBACKEND=Agg timeout 600 /venv/bin/python "$W/.demo.py" > "$W/.demo.out" 2>&1; echo $? ); }
 d0=$(run_demo)
